@@ -255,35 +255,13 @@ fn stream_decoder_case(seed: u64, i: u64, rep: &mut Report) {
     authenticated_malformed(seed, i, &cfg, role, &target, now, &mut rng, rep, &decoder);
 }
 
-fn fresh_server(cfg: &Cfg) -> Option<AnyDec> {
-    let sh = real::server_shared(cfg).ok()?;
-    Some(real::any_server(real::server_codec(cfg, &sh).ok()?))
-}
-
-fn authenticated_malformed(seed: u64, i: u64, cfg: &Cfg, role: Role, target: &Addr, now: u64, rng: &mut Rng, rep: &mut Report, decoder: &str) {
-    authenticated_malformed_sampled(seed, i, cfg, role, target, now, rng, rep, decoder, 1, usize::MAX)
-}
-
-/// `one_in` / `limit`: present only every `one_in`-th generated frame and at most `limit` of them (the Miri workload
-/// runs the same generators, but can afford only a handful of frames per decoder).
-#[allow(clippy::too_many_arguments)]
-pub(super) fn authenticated_malformed_sampled(seed: u64, i: u64, cfg: &Cfg, role: Role, target: &Addr, now: u64, rng: &mut Rng, rep: &mut Report, decoder: &str, one_in: u64, limit: usize) {
+/// Well-authenticated but malformed requests for a server of `cfg` (made with the reference implementation and the
+/// right credential, so they pass authentication and reach the parsing code behind it). Used at codec level (fed to
+/// a fresh server decoder) and at node level (written to the listening socket of a running server).
+pub fn server_malformed_wires(cfg: &Cfg, dgram: bool, target: &Addr, now: u64, rng: &mut Rng, sink: &mut dyn FnMut(&str, Vec<u8>)) {
     let addrs = address_variants(rng);
-    let mut presented = 0usize;
-    let mut run = |rep: &mut Report, rng: &mut Rng, mut dec: AnyDec, wire: Vec<u8>, what: &str| {
-        if presented >= limit || (one_in > 1 && !rng.chance(1, one_in)) {
-            return;
-        }
-        presented += 1;
-        let cuts = if rng.chance(1, 3) { gen::random_cuts(rng, wire.len(), 3) } else { vec![] };
-        rep.evaluations += 1;
-        rep.mon("authenticated_malformed_frames", 1);
-        if let Some((pi, _)) = feed(&mut dec.0, &[], &wire, &cuts, rep) {
-            report_panic(rep, decoder, "initial", &format!("authenticated-malformed:{what}"), &pi, seed, i, Some(cfg), 0, &wire, &cuts);
-        }
-    };
-    match (cfg.proto, role) {
-        (Proto::Ss(m), Role::ServerStream) if m.is_2022() => {
+    match (cfg.proto, dgram) {
+        (Proto::Ss(m), _) if m.is_2022() => {
             let keys = cfg.ref_client_keys();
             for a in &addrs {
                 for var in with_tail_variants(a, rng).into_iter().take(12) {
@@ -291,9 +269,7 @@ pub(super) fn authenticated_malformed_sampled(seed: u64, i: u64, cfg: &Cfg, role
                     for declared in [var.len() as u16, 0u16] {
                         let (mut w, mut cc) = ss::s22_request_encode_raw(m, &keys, &salt, 0, now, &var, declared);
                         ss::write_chunks(&mut cc, b"tail", 100, &mut w);
-                        if let Some(d) = fresh_server(cfg) {
-                            run(rep, rng, d, w, "ss2022-variable-header");
-                        }
+                        sink("ss2022-variable-header", w);
                         if declared == 0 {
                             break;
                         }
@@ -301,7 +277,7 @@ pub(super) fn authenticated_malformed_sampled(seed: u64, i: u64, cfg: &Cfg, role
                 }
             }
         }
-        (Proto::Ss(m), Role::ServerStream) => {
+        (Proto::Ss(m), _) => {
             let master = cfg.ref_server_psk();
             for a in &addrs {
                 let mut first = a.clone();
@@ -312,9 +288,7 @@ pub(super) fn authenticated_malformed_sampled(seed: u64, i: u64, cfg: &Cfg, role
                 if rng.chance(1, 2) {
                     w.write(b"more", 0x3FFF, &mut wire);
                 }
-                if let Some(d) = fresh_server(cfg) {
-                    run(rep, rng, d, wire, "sip004-first-chunk");
-                }
+                sink("sip004-first-chunk", wire);
             }
             // declared chunk lengths at the boundaries, authenticated
             for l in boundary_u16s() {
@@ -324,14 +298,12 @@ pub(super) fn authenticated_malformed_sampled(seed: u64, i: u64, cfg: &Cfg, role
                 let mut wire = salt.clone();
                 wire.extend_from_slice(&cc.seal(&l.to_be_bytes(), "ss-len"));
                 wire.extend_from_slice(&rng.bytes(40));
-                if let Some(d) = fresh_server(cfg) {
-                    run(rep, rng, d, wire, "sip004-length-field");
-                }
+                sink("sip004-length-field", wire);
             }
         }
-        (Proto::Vmess(sec), Role::ServerStream | Role::ServerDgram) => {
+        (Proto::Vmess(sec), _) => {
             let ck = cfg.ref_cmd_keys()[cfg.client_uuid];
-            let cmd = if role == Role::ServerDgram { vmess::CMD_UDP } else { vmess::CMD_TCP };
+            let cmd = if dgram { vmess::CMD_UDP } else { vmess::CMD_TCP };
             let base = vmess::RequestHeader { version: 1, body_iv: rng.arr(), body_key: rng.arr(), resp_v: 7, option: 0x05, padding: rng.bytes(5), security: sec, reserved: 0, command: cmd, addr: target.clone() };
             let full = vmess::header_plaintext(&base);
             let mut plains: Vec<Vec<u8>> = Vec::new();
@@ -371,9 +343,7 @@ pub(super) fn authenticated_malformed_sampled(seed: u64, i: u64, cfg: &Cfg, role
                 let mut w = vmess::seal_header_bytes(&ck, &pt, &aid, &rng.arr());
                 // follow with masked (unauthenticated) chunk lengths of every small size
                 w.extend_from_slice(&rng.bytes(48));
-                if let Some(d) = fresh_server(cfg) {
-                    run(rep, rng, d, w, "vmess-request-header");
-                }
+                sink("vmess-request-header", w);
             }
             // valid header, then body chunks whose (masked, unauthenticated) length is every value 0..=80 and the boundaries
             for opt in [0x01u8, 0x05, 0x0D] {
@@ -389,13 +359,11 @@ pub(super) fn authenticated_malformed_sampled(seed: u64, i: u64, cfg: &Cfg, role
                     let field = if opt & 0x04 != 0 { l ^ shake.next_u16() } else { l };
                     w.extend_from_slice(&field.to_be_bytes());
                     w.extend_from_slice(&rng.bytes((l as usize).min(300) + 5));
-                    if let Some(d) = fresh_server(cfg) {
-                        run(rep, rng, d, w, "vmess-body-length");
-                    }
+                    sink("vmess-body-length", w);
                 }
             }
         }
-        (Proto::Trojan, Role::ServerStream | Role::ServerDgram) => {
+        (Proto::Trojan, _) => {
             let hash = refimpl::crypto::sha224_hex(cfg.password.as_bytes()).into_bytes();
             for cmd in 0..=255u8 {
                 let mut w = hash.clone();
@@ -403,9 +371,7 @@ pub(super) fn authenticated_malformed_sampled(seed: u64, i: u64, cfg: &Cfg, role
                 w.push(cmd);
                 refimpl::addr::socks_encode(target, &mut w);
                 w.extend_from_slice(b"\r\nrest");
-                if let Some(d) = fresh_server(cfg) {
-                    run(rep, rng, d, w, "trojan-command");
-                }
+                sink("trojan-command", w);
             }
             for a in &addrs {
                 for cmd in [1u8, 3] {
@@ -416,9 +382,7 @@ pub(super) fn authenticated_malformed_sampled(seed: u64, i: u64, cfg: &Cfg, role
                         w.extend_from_slice(a);
                         w.extend_from_slice(tail);
                         w.extend_from_slice(&rng.bytes(3));
-                        if let Some(d) = fresh_server(cfg) {
-                            run(rep, rng, d, w, "trojan-address");
-                        }
+                        sink("trojan-address", w);
                     }
                 }
             }
@@ -427,9 +391,7 @@ pub(super) fn authenticated_malformed_sampled(seed: u64, i: u64, cfg: &Cfg, role
                 for body in with_tail_variants(a, rng).into_iter().take(10) {
                     let mut w = refimpl::trojan::request_encode(cfg.password.as_bytes(), 3, target, &[]);
                     w.extend_from_slice(&body);
-                    if let Some(d) = fresh_server(cfg) {
-                        run(rep, rng, d, w, "trojan-udp-packet");
-                    }
+                    sink("trojan-udp-packet", w);
                 }
             }
             // non-ASCII / odd "hex"
@@ -445,10 +407,47 @@ pub(super) fn authenticated_malformed_sampled(seed: u64, i: u64, cfg: &Cfg, role
                     _ => vec![b'+'; 56],
                 };
                 w.extend_from_slice(b"\r\n\x01\x01\x01\x02\x03\x04\x00\x50\r\n");
-                if let Some(d) = fresh_server(cfg) {
-                    run(rep, rng, d, w, "trojan-hash-field");
-                }
+                sink("trojan-hash-field", w);
             }
+        }
+    }
+}
+
+fn fresh_server(cfg: &Cfg) -> Option<AnyDec> {
+    let sh = real::server_shared(cfg).ok()?;
+    Some(real::any_server(real::server_codec(cfg, &sh).ok()?))
+}
+
+fn authenticated_malformed(seed: u64, i: u64, cfg: &Cfg, role: Role, target: &Addr, now: u64, rng: &mut Rng, rep: &mut Report, decoder: &str) {
+    authenticated_malformed_sampled(seed, i, cfg, role, target, now, rng, rep, decoder, 1, usize::MAX)
+}
+
+/// `one_in` / `limit`: present only every `one_in`-th generated frame and at most `limit` of them (the Miri workload
+/// runs the same generators, but can afford only a handful of frames per decoder).
+#[allow(clippy::too_many_arguments)]
+pub(super) fn authenticated_malformed_sampled(seed: u64, i: u64, cfg: &Cfg, role: Role, target: &Addr, now: u64, rng: &mut Rng, rep: &mut Report, decoder: &str, one_in: u64, limit: usize) {
+    let addrs = address_variants(rng);
+    let mut presented = 0usize;
+    let mut rng2 = Rng::derive(seed, 0xC07A, i);
+    let mut run = |rep: &mut Report, rng: &mut Rng, mut dec: AnyDec, wire: Vec<u8>, what: &str| {
+        if presented >= limit || (one_in > 1 && !rng.chance(1, one_in)) {
+            return;
+        }
+        presented += 1;
+        let cuts = if rng.chance(1, 3) { gen::random_cuts(rng, wire.len(), 3) } else { vec![] };
+        rep.evaluations += 1;
+        rep.mon("authenticated_malformed_frames", 1);
+        if let Some((pi, _)) = feed(&mut dec.0, &[], &wire, &cuts, rep) {
+            report_panic(rep, decoder, "initial", &format!("authenticated-malformed:{what}"), &pi, seed, i, Some(cfg), 0, &wire, &cuts);
+        }
+    };
+    match (cfg.proto, role) {
+        (_, Role::ServerStream | Role::ServerDgram) => {
+            server_malformed_wires(cfg, role == Role::ServerDgram, target, now, rng, &mut |what, w| {
+                if let Some(d) = fresh_server(cfg) {
+                    run(rep, &mut rng2, d, w, what);
+                }
+            });
         }
         (Proto::Vmess(_), Role::ClientStream | Role::ClientDgram) => {
             // replies: response header contents of every small shape, sealed with the keys of the client's request
